@@ -15,6 +15,7 @@ structure OpsPres (f : FsCfg) (I : World → Prop) : Prop where
   move : ∀ w a b env, I w → I (move f.c w a b env).1
   rebuild : ∀ w, I w → I (rebuildOp f w).1
   stuck : ∀ w, I w → I { w with stuck := true }
+  unstuck : ∀ w, I w → I { w with stuck := false }
 
 variable {f : FsCfg} {I : World → Prop}
 
@@ -75,6 +76,26 @@ theorem readlink_ro (hs : RowStable I) (name : Name) : Pres I (readlink name) :=
 theorem hReaddir_ro (hs : RowStable I) (hd : Handle) (n : Int) : Pres I (hReaddir hd n) := by
   unfold hReaddir
   repeat (first | with_reducible exact list_ro hs _ _ | pres_step)
+
+theorem startReader_ro (hs : RowStable I) (hst : ∀ w, I w → I { w with stuck := true }) (f : FsCfg) (hd : Handle) :
+    Pres I (startReader f hd) := by
+  unfold startReader restoreContent fetchedHeader
+  repeat (first | with_reducible exact Pres.wedge hst _ | pres_step)
+
+theorem hRead_ro (hs : RowStable I) (hst : ∀ w, I w → I { w with stuck := true }) (f : FsCfg) (hd : Handle) (n : Nat) :
+    Pres I (hRead f hd n) := by
+  unfold hRead
+  repeat (first | with_reducible exact startReader_ro hs hst f _ | pres_step)
+
+theorem hSeekNoLock_ro (hs : RowStable I) (hst : ∀ w, I w → I { w with stuck := true }) (f : FsCfg) (hd : Handle) (o w : Int) :
+    Pres I (hSeekNoLock f hd o w) := by
+  unfold hSeekNoLock
+  repeat (first | with_reducible exact startReader_ro hs hst f _ | pres_step)
+
+theorem hReadAt_ro (hs : RowStable I) (hst : ∀ w, I w → I { w with stuck := true }) (f : FsCfg) (hd : Handle) (n : Nat) (o : Int) :
+    Pres I (hReadAt f hd n o) := by
+  unfold hReadAt
+  repeat (first | with_reducible exact hSeekNoLock_ro hs hst f _ _ _ | with_reducible exact hRead_ro hs hst f _ _ | pres_step)
 
 theorem stat_pres (h : OpsPres f I) (name : Name) (symlink : Bool) : Pres I (stat name symlink) := stat_ro h.stable _ _
 
@@ -230,7 +251,7 @@ theorem restoreContent_pres (h : OpsPres f I) (path : Name) : Pres I (restoreCon
   restoreContent_ro h.stable f path
 
 theorem enterWriteMode_pres (h : OpsPres f I) (hd : Handle) : Pres I (enterWriteMode f hd) := by
-  unfold enterWriteMode
+  unfold enterWriteMode enterWriteModeCore
   repeat (first | with_reducible exact stat_pres h _ _ | with_reducible exact restoreContent_pres h _ | pres_step)
 
 theorem hWrite_pres (h : OpsPres f I) (hd : Handle) (p : Bytes) : Pres I (hWrite f hd p) := by
@@ -245,7 +266,7 @@ theorem hSyncNoLock_pres (h : OpsPres f I) (env : Env) (hd : Handle) : Pres I (h
     | pres_step)
 
 theorem hClose_pres (h : OpsPres f I) (env : Env) (hd : Handle) : Pres I (hClose f env hd) := by
-  unfold hClose
+  unfold hClose hCloseCore
   repeat (first | with_reducible exact hSyncNoLock_pres h env _ | pres_step)
 
 theorem hReaddir_pres (h : OpsPres f I) (hd : Handle) (n : Int) : Pres I (hReaddir hd n) := by
